@@ -188,3 +188,28 @@ fn text_of(op: usize) -> &'static str {
 #[test] fn w__compile_dataset_graph__any() { w__execute_sparql_query__never_mutates(); }
 #[test] fn w__optimize_and_execute__any() { w__execute_sparql_query__never_mutates(); }
 #[test] fn w__execute_with_ids_and_dataset__any() { w__execute_sparql_query__never_mutates(); }
+
+// ---- the HTTP query routes: GET ?query=, POST application/sparql-query, POST form query= ------------------------------------
+fn pct(s: &str) -> String { s.bytes().map(|b| if b.is_ascii_alphanumeric() { (b as char).to_string() } else { format!("%{:02X}", b) }).collect() }
+fn http_query_requests(text: &str) -> Vec<(String, String)> {
+    vec![
+        ("GET ?query=".into(), format!("GET /sparql?query={} HTTP/1.1\r\nHost: localhost\r\n\r\n", pct(text))),
+        ("POST application/sparql-query".into(), format!("POST /sparql HTTP/1.1\r\nHost: localhost\r\nContent-Type: application/sparql-query\r\nContent-Length: {}\r\n\r\n{}", text.len(), text)),
+        ("POST form query=".into(), format!("POST /sparql HTTP/1.1\r\nHost: localhost\r\nContent-Type: application/x-www-form-urlencoded\r\n\r\nquery={}", pct(text))),
+        ("POST form query= with + for blanks".into(), format!("POST /sparql HTTP/1.1\r\nHost: localhost\r\nContent-Type: application/x-www-form-urlencoded\r\n\r\nquery={}", pct(text).replace("%20", "+"))),
+    ]
+}
+#[test] fn w__http_query_routes__never_mutate_and_never_crash() {
+    for (si, mut db) in states().into_iter().enumerate() {
+        let texts: Vec<&str> = UPDATES.iter().chain(ALIASES.iter()).chain(QUERIES.iter()).chain(GARBAGE.iter()).copied().filter(|t| !t.contains('\r')).collect();
+        for text in texts {
+            for (route, request) in http_query_requests(text) {
+                let before = dataset(&db);
+                let r = std::panic::catch_unwind(std::panic::AssertUnwindSafe(|| db.handle_http_request(&request)));
+                assert!(r.is_ok(), "state {}: {} carrying {:?} crashed the HTTP adapter instead of answering", si, route, text);
+                let after = dataset(&db);
+                assert!(after == before, "state {}: {} carrying {:?} changed the stored dataset: before {:?}, after {:?}", si, route, text, before, after);
+            }
+        }
+    }
+}
